@@ -1,9 +1,17 @@
 #!/bin/sh
-# Build the framework from files on disk only (offline): Lean model+proofs+driver, Rust harness.
+# Build the framework from files on disk only (offline): Lean model + driver + every theorem module
+# named in lean/props.json (so that the first run of a check does not pay for the proofs), Rust harness.
 set -e
 cd "$(dirname "$0")/.."
 export CARGO_NET_OFFLINE=true
-(cd lean && lake build Deb822Verif model)
+MODS=$(python3 -c "
+import json
+p=json.load(open('lean/props.json'))
+m=[]
+for v in p.values():
+    m.append(v['module']); m+=v.get('extra_modules') or []
+print(' '.join(dict.fromkeys(m)))")
+(cd lean && lake build Deb822Verif model $MODS)
 [ -f harness/Cargo.lock ] || cp /repo/Cargo.lock harness/Cargo.lock
 (cd harness && cargo build --release --offline)
 mkdir -p work replays evidence
